@@ -383,7 +383,8 @@ Definition collect_and_prepare (c : cfg) (o : opts) (droot : apath) (s : fs) (no
   collect c (S (length dst + length nodes)) o droot s plan0 dst nodes.
 
 (* ---------------------------------------------------------------- restore_contents *)
-Definition nth_name (pl_names : list pbuf) (i : nat) : pbuf := nth i pl_names pempty.
+(* filenames[file_idx]: an index out of bounds panics *)
+Definition nth_name (pl_names : list pbuf) (i : nat) : option pbuf := nth_error pl_names i.
 
 (* "first create needed empty files" *)
 Fixpoint create_empty (droot : apath) (s : fs) (names : list pbuf) (lens : list N) : option fs :=
@@ -411,7 +412,8 @@ Definition write_dest (c : cfg) (o : opts) (droot : apath) (names : list pbuf) (
   match st with
   | None => None
   | Some (s, sizes) =>
-    let p := dpath droot (nth_name names (fl_idx fl)) in
+    match nth_name names (fl_idx fl) with None => None | Some nm =>
+    let p := dpath droot nm in
     let sz := nth (fl_idx fl) sizes 0 in
     let alloc := if 0 <? sz then match set_length s p sz with
                                  | Some s' => Some (s', set_nth sizes (fl_idx fl) 0)
@@ -426,6 +428,7 @@ Definition write_dest (c : cfg) (o : opts) (droot : apath) (names : list pbuf) (
            | Some s2 => Some (s2, sizes1)
            | None => None
            end
+    end
     end
   end.
 
@@ -443,9 +446,12 @@ Definition do_entry (c : cfg) (o : opts) (droot : apath) (names : list pbuf) (pr
     | _ =>
       let src :=
         match find fl_matches fls with
-        | Some fl => match read_at s (dpath droot (nth_name names (fl_idx fl))) (fl_start fl) (nlen data) with
-                     | Some d => Some (d, reads)
+        | Some fl => match nth_name names (fl_idx fl) with
                      | None => None
+                     | Some nm => match read_at s (dpath droot nm) (fl_start fl) (nlen data) with
+                                  | Some d => Some (d, reads)
+                                  | None => None
+                                  end
                      end
         | None => Some (data, reads ++ [fst k])
         end in
